@@ -103,7 +103,12 @@ func newClient(s *Swarm, remoteAddr Addr, netConn net.Conn) (*Conn, error) {
 	c := &Conn{
 		swarm:      s,
 		remoteAddr: remoteAddr,
-		shutdown:   make(chan struct{}),
+		localAddr: Addr{
+			Fingerprint: ssh.FingerprintSHA256(s.signer.PublicKey()),
+			IP:          s.LocalAddrs()[0].IP,
+			Port:        uint16(netConn.LocalAddr().(*net.TCPAddr).Port),
+		},
+		shutdown: make(chan struct{}),
 
 		newChanReqs: newChans,
 		reqs:        reqs,
